@@ -140,6 +140,9 @@ func (zw *Writer) Close() error {
 	if zw.err == errClosed {
 		return nil
 	}
+	if zw.err != nil {
+		return zw.err
+	}
 
 	// Flush RLE buffer if there is left-over data.
 	if zw.err = zw.flush(); zw.err != nil {
